@@ -26,6 +26,16 @@ def bind {α β} (x : Outcome α) (f : α → Outcome β) : Outcome β :=
   | .ok a => f a
   | .err e => .err e
   | .panic s => .panic s
+theorem bind_eq_ok_iff {α β} (x : Outcome α) (f : α → Outcome β) (b : β) :
+    x.bind f = .ok b ↔ ∃ a, x = .ok a ∧ f a = .ok b := by
+  cases x <;> simp [bind]
+
+theorem bind_ne_panic {α β} (x : Outcome α) (f : α → Outcome β)
+    (hx : ∀ p, x ≠ .panic p) (hf : ∀ a p, f a ≠ .panic p) (p : String) : x.bind f ≠ .panic p := by
+  cases x with
+  | ok a => exact hf a p
+  | err e => simp [bind]
+  | panic q => exact absurd rfl (hx q)
 end Outcome
 
 /-! ### big-endian fixed width words -/
